@@ -386,6 +386,16 @@ func runCodTab(c *core.Ctx) {
 		proceed, _, _ = fr.ReachSet(edec, firstLookup.Block(), nil, nil)
 	}
 	nf := int64(st.NumFields())
+	// "exactly the seven members" said member by member: every key of the object must be one of a
+	// package-level list of names (`for k := range obj { if !slices.Contains(eventFieldNames[:], k) { return err } }`)
+	// that equals the struct tags, and all of them are looked up (a missing one fails its type assertion)
+	if firstLookup != nil && !proceed.Equal(an.Range(nf, nf)) && setList(tags) == setList(looked) && len(tags) == st.NumFields() {
+		if names, ok := closedKeyLoop(P, edec, firstLookup.X); ok {
+			c.Check(setList(names) == setList(tags), nil, "Event", "keys", P.Pos(edec.Pos()), fmt.Sprintf("%d struct tags = %d keys looked up; a member with any other name is refused by name", len(tags), len(looked)),
+				fmt.Sprintf("Event codec disagreement: struct tags {%s}, but members are admitted by the list {%s}", setList(tags), setList(names)))
+			return
+		}
+	}
 	c.Check(setList(tags) == setList(looked) && len(tags) == st.NumFields() && proceed.Equal(an.Range(nf, nf)), nil, "Event", "keys", P.Pos(edec.Pos()), fmt.Sprintf("%d struct tags = %d keys looked up; decoding proceeds iff the object has %s members", len(tags), len(looked), proceed),
 		fmt.Sprintf("Event codec disagreement: struct tags {%s}, keys looked up {%s}, decoding proceeds with %s members (want exactly %d): missing or extra members are not refused", setList(tags), setList(looked), proceed, nf))
 }
@@ -420,7 +430,7 @@ func runDecPanic(c *core.Ctx) {
 			case *ssa.Panic:
 				bad = append(bad, fmt.Sprintf("%s: explicit panic (%s)", fname(c, fn), P.Pos(x.Pos())))
 			case *ssa.TypeAssert:
-				if !x.CommaOk {
+				if !x.CommaOk && !poolAssertSafe(P, x) {
 					bad = append(bad, fmt.Sprintf("%s: unchecked type assertion to %s (%s)", fname(c, fn), types.TypeString(x.AssertedType, nil), P.Pos(x.Pos())))
 				}
 			case *ssa.BinOp:
@@ -933,4 +943,91 @@ func mayReturnNil(g *ssa.Function) bool {
 		}
 	}
 	return false
+}
+
+// closedKeyLoop: dec ranges over the decoded object obj and returns a non-nil error for every key that
+// slices.Contains does not find in (a slice of) a package-level array of constant strings; the names in
+// that array. ok=false: no such loop.
+func closedKeyLoop(P *core.Program, dec *ssa.Function, obj ssa.Value) (map[string]bool, bool) {
+	var contains *ssa.Call
+	var arr *ssa.Global
+	an.Instrs(dec, func(in ssa.Instruction) {
+		call, ok := in.(*ssa.Call)
+		if !ok || !strings.HasPrefix(an.CalleeName(&call.Call), "slices.Contains") || len(call.Call.Args) != 2 || !an.InLoop(call.Block()) {
+			return
+		}
+		// the key: what a range over obj yields
+		ex, isEx := call.Call.Args[1].(*ssa.Extract)
+		if !isEx || ex.Index != 1 {
+			return
+		}
+		nx, isNx := ex.Tuple.(*ssa.Next)
+		if !isNx {
+			return
+		}
+		rg, isRg := nx.Iter.(*ssa.Range)
+		if !isRg || an.PathOf(rg.X) != an.PathOf(obj) {
+			return
+		}
+		// the list: a slice of a package-level array
+		if sl, isSl := call.Call.Args[0].(*ssa.Slice); isSl {
+			if g, isG := sl.X.(*ssa.Global); isG {
+				contains, arr = call, g
+			}
+		}
+	})
+	if contains == nil {
+		return nil, false
+	}
+	// "not contained" leads to a non-nil error
+	refuses := false
+	for _, rb := range an.ReturnBlocks(dec) {
+		rv := an.ReturnValues(an.LastInstr(rb).(*ssa.Return))
+		if len(rv) == 0 || an.IsNilConst(rv[len(rv)-1]) {
+			continue
+		}
+		for _, g := range an.Guards(dec, rb) {
+			if v, pol := stripNot(g.V, g.True); v == ssa.Value(contains) && !pol {
+				refuses = true
+			}
+		}
+	}
+	if !refuses {
+		return nil, false
+	}
+	names := map[string]bool{}
+	dirty := false
+	for _, pkg := range []*ssa.Package{P.Root} {
+		initFn := pkg.Func("init")
+		if initFn == nil {
+			continue
+		}
+		an.Instrs(initFn, func(in ssa.Instruction) {
+			st, ok := in.(*ssa.Store)
+			if !ok {
+				return
+			}
+			if ia, ok := st.Addr.(*ssa.IndexAddr); ok && ia.X == ssa.Value(arr) {
+				if s, ok := an.ConstStr(st.Val); ok {
+					names[s] = true
+				} else {
+					dirty = true
+				}
+			}
+		})
+	}
+	// nobody else writes the array
+	for _, fn := range P.ModFuncs {
+		if fn.Name() == "init" {
+			continue
+		}
+		an.Instrs(fn, func(in ssa.Instruction) {
+			if st, ok := in.(*ssa.Store); ok {
+				if ia, ok := st.Addr.(*ssa.IndexAddr); ok && ia.X == ssa.Value(arr) {
+					dirty = true
+				}
+			}
+		})
+	}
+	return names, !dirty && len(names) > 0
 }
